@@ -503,7 +503,36 @@ def process_chunk(prop, st, binp, asan_bin, seed, tier, a, b, workdir, agg, lock
         with lock:
             agg['counters']['driver.worker_deaths'] = agg['counters'].get('driver.worker_deaths', 0) + 1
         if not res.get('crash_in_case'):
-            # died outside any case (start-up / between cases): harness failure
+            # died between cases.  In a non-sanitized flavour this is what heap corruption by an *earlier* case of the same process looks
+            # like (glibc aborts in a later free/malloc): re-run the cases this worker had completed under ASan to find the culprit.
+            attributed = False
+            if asan_bin and asan_bin != binp and st['flavour'] != 'asan' and res['done_upto'] > cur and not wrap:
+                lo_ = cur
+                for _ in range(6):
+                    c2 = run_worker(prop, 'asan', asan_bin, seed, tier, lo_, res['done_upto'], workdir, idle * 4, extra)
+                    if c2['crashed_case'] is None or not c2.get('crash_in_case'):
+                        break
+                    k2 = c2['crashed_case']
+                    key2 = crash_key(c2['stderr'], c2['rc'])
+                    desc2 = ''
+                    for ev in c2['events']:
+                        if ev.get('ev') == 'begin' and ev.get('case') == k2:
+                            desc2 = ev.get('desc', '')
+                    marks = [m_ for m_ in st.get('crash_markers', []) if m_ in desc2]
+                    if marks:
+                        key2 += '+' + ','.join(marks)
+                    with lock:
+                        agg['viols'].append(dict(ev='viol', case=k2, key='crash:' + key2, detail='the %s worker died between cases (rc=%s, %s); the same cases under ASan: '
+                                                 'memory error in case %d [%s]' % (st['flavour'], res['rc'], res['stderr'][-200:].strip().replace('\n', ' '), k2, desc2),
+                                                 _stage=dict(st, flavour='asan'), stderr=c2['stderr'][-6000:]))
+                        agg['counters']['driver.between_case_deaths_attributed_by_asan'] = agg['counters'].get('driver.between_case_deaths_attributed_by_asan', 0) + 1
+                    attributed = True
+                    lo_ = k2 + 1
+                    if lo_ >= res['done_upto']:
+                        break
+            if attributed:
+                cur = res['done_upto']       # go on behind the point of death in a fresh process
+                continue
             with lock:
                 agg['harness_errors'].append('worker died outside a case (rc=%s) stage=%s range=%d..%d stderr=%s' % (
                     res['rc'], st['name'], cur, b, res['stderr'][-1500:]))
